@@ -108,8 +108,10 @@ def hasFlonum2 (ty : ATy) : Bool := hasFlonum ty 8 16 0
 
 def b2n (b : Bool) : Nat := if b then 1 else 0
 
-/-- `struct_in_regs(ty, gp, fp, &ngp, &nfp)`: (result, ngp, nfp) -/
+/-- `struct_in_regs(ty, gp, fp, &ngp, &nfp)`: (result, ngp, nfp).  A GNU empty struct (`ty->size == 0`) occupies no
+    register and no stack slot. -/
 def structInRegs (ty : ATy) (gp fp : Nat) : Bool × Nat × Nat :=
+  if ty.size = 0 then (true, 0, 0) else
   let fp1 := hasFlonum1 ty
   let nfp := b2n fp1
   let ngp := b2n (!fp1)
@@ -198,7 +200,7 @@ def popStep (st : Nat × Nat) (ty : ATy) : (Nat × Nat) × List Pop :=
   let (gp, fp) := st
   match ty with
   | .agg .. =>
-    if ty.size > 16 then (st, [])
+    if ty.size > 16 ∨ ty.size = 0 then (st, [])        -- `if (ty->size > 16 || ty->size == 0) continue;`
     else
       let (ok, _, _) := structInRegs ty gp fp
       if ok then
@@ -341,7 +343,8 @@ def storeStep (st : Nat × Nat) (ty : ATy) : Except Abort ((Nat × Nat) × List 
   let (gp, fp) := st
   match ty with
   | .agg .. =>
-    if ty.size ≤ 16 then do
+    if ty.size ≤ 16 then
+     if ty.size = 0 then pure ((gp, fp), []) else do        -- `if (ty->size == 0) break;`
       let s1 ← if hasFlonum ty 0 8 0 then storeFp fp 0 (min 8 ty.size) else storeGp gp 0 (min 8 ty.size)
       let gp1 := if hasFlonum ty 0 8 0 then gp else gp + 1
       let fp1 := if hasFlonum ty 0 8 0 then fp + 1 else fp
@@ -410,7 +413,8 @@ inductive RetLoc where
 
 /-- register pieces of a struct/union of at most 16 bytes: `copy_struct_reg` (callee) and `copy_ret_buffer` (caller)
     are the same ladder; both transcribed, see `retPiecesCaller` -/
-def retPiecesCallee (ty : ATy) : Except Abort (List RetReg) := do
+def retPiecesCallee (ty : ATy) : Except Abort (List RetReg) :=
+  if ty.size = 0 then pure [] else do          -- a GNU empty struct is returned in no register
   -- first eightbyte
   let first ← if hasFlonum ty 0 8 0 then
       (if ty.size = 4 ∨ 8 ≤ ty.size then pure RetReg.xmm0 else throw Abort.assertSize)
@@ -424,7 +428,8 @@ def retPiecesCallee (ty : ATy) : Except Abort (List RetReg) := do
     else pure [first, if gp = 0 then RetReg.rax else RetReg.rdx]
   else pure [first]
 
-def retPiecesCaller (ty : ATy) : Except Abort (List RetReg) := do
+def retPiecesCaller (ty : ATy) : Except Abort (List RetReg) :=
+  if ty.size = 0 then pure [] else do
   let first ← if hasFlonum1 ty then
       (if ty.size = 4 ∨ 8 ≤ ty.size then pure RetReg.xmm0 else throw Abort.assertSize)
     else pure RetReg.rax
@@ -581,6 +586,7 @@ def selectRev : List ATy → List Bool → Bool → List ATy
 /-- `copy_ret_buffer(var)` with `var->offset = off` -/
 def copyRetBufferLines (ty : ATy) (off : Int) : List String :=
   let sz := ty.size
+  if sz = 0 then [] else
   let first :=
     if hasFlonum1 ty then [if sz = 4 then s!"  movss %xmm0, {off}(%rbp)" else s!"  movsd %xmm0, {off}(%rbp)"]
     else (countUp (min 8 sz)).flatMap (fun (i : Nat) => [s!"  mov %al, {off + i}(%rbp)", "  shr $8, %rax"])
@@ -667,6 +673,7 @@ def paramOffsets (s : Sig) : List Int :=
 /-- `copy_struct_reg()` -/
 def copyStructRegLines (ty : ATy) : List String :=
   let sz := ty.size
+  if sz = 0 then [] else
   let first :=
     if hasFlonum ty 0 8 0 then [if sz = 4 then "  movss (%rdi), %xmm0" else "  movsd (%rdi), %xmm0"]
     else "  mov $0, %rax" :: (countDown (min 8 sz) 0).flatMap (fun (i : Nat) => ["  shl $8, %rax", s!"  mov {i}(%rdi), %al"])
